@@ -10,7 +10,9 @@ from runner import Ob
 FILE = ("agg", "adt", "analyzer::ast::Node::SourceUnit", (("param", 1),))
 
 
-def rooted_in_file(t):
+def rooted_in_file(t, body=None):
+    if body is not None and not (body.arg_count >= 1 and body.local_ty(1) == "solang_parser::pt::SourceUnit"):
+        return False
     """the collection is derived from the whole file (a search rooted at the file, or the file's own part list)"""
     while True:
         if t[0] in ("proj", "elem", "iter"):
@@ -47,7 +49,7 @@ def check_body(rule, crate, body, label):
     loops = O.loops_of_body(body)
     for lp in loops:
         it = lp.iterable
-        filewide = rooted_in_file(it) and not item_scoped(it)
+        filewide = rooted_in_file(it, body) and not item_scoped(it)
         where = lp.site.where
         # loop-carried mutable locals: defined outside, written inside, read inside
         carried = []
@@ -76,7 +78,8 @@ def check_body(rule, crate, body, label):
     for s in S.call_sites(body):
         if s.path in core.SEARCH_FNS and len(s.args) == 2:
             root = s.args[1]
-            if (root == FILE or (root[0] == "agg" and root[3] and root[3][0] == ("param", 1))) and body.loops_of(s.bb):
+            is_file = body.arg_count >= 1 and body.local_ty(1) == "solang_parser::pt::SourceUnit"
+            if is_file and (root == FILE or (root[0] == "agg" and root[3] and root[3][0] == ("param", 1))) and body.loops_of(s.bb):
                 obs.append(Ob(rule + ".root", body.path, "%s: a search of the whole file inside a per-item loop" % label, False, site=s.where,
                               expected="searches inside a loop over items are rooted at the item", found=show(s.result)[:100],
                               example="contract A { uint x; uint y = (x = 1); } contract B { constructor(){} }"))
